@@ -492,8 +492,68 @@ func (e *exh) condMentions(cond ssa.Value, v ssa.Value) bool {
 				}
 			}
 		}
+	case *ssa.Phi:
+		if ops, _, ok := shortCircuit(c, 0); ok {
+			for _, o := range ops {
+				if e.condMentions(o, v) {
+					return true
+				}
+			}
+		}
+	case *ssa.Call:
+		// slices.Contains(constants[:], x) with x the value or a getter of it
+		if _, subj, ok := containsConsts(c); ok {
+			if sameValue(subj, v) {
+				return true
+			}
+			if call, ok := subj.(*ssa.Call); ok && !call.Call.IsInvoke() && len(call.Call.Args) == 1 && e.sameNode(call.Call.Args[0], v) {
+				return true
+			}
+		}
 	}
 	return false
+}
+
+// containsConsts: c is slices.Contains(list, x) where list is a slice of a
+// local array literal of integer constants; returns the constants and x.
+func containsConsts(c *ssa.Call) (map[int64]bool, ssa.Value, bool) {
+	if calleeQualified(&c.Call) != "slices.Contains" || len(c.Call.Args) != 2 {
+		return nil, nil, false
+	}
+	elems := variadicArgs(c.Call.Args[0])
+	if len(elems) == 0 {
+		// `arr := [...]T{…}` is built in a temporary and copied: follow the copy
+		if sl, ok := c.Call.Args[0].(*ssa.Slice); ok {
+			if al, ok := sl.X.(*ssa.Alloc); ok {
+				nstores := 0
+				for _, r := range *al.Referrers() {
+					if st, ok := r.(*ssa.Store); ok && st.Addr == ssa.Value(al) {
+						nstores++
+						if u, ok := st.Val.(*ssa.UnOp); ok && u.Op == token.MUL {
+							if src, ok := u.X.(*ssa.Alloc); ok {
+								elems = variadicArgs(&ssa.Slice{X: src})
+							}
+						}
+					}
+				}
+				if nstores != 1 {
+					elems = nil
+				}
+			}
+		}
+	}
+	if len(elems) == 0 {
+		return nil, nil, false
+	}
+	ks := map[int64]bool{}
+	for _, el := range elems {
+		k, ok := constInt(el)
+		if !ok {
+			return nil, nil, false
+		}
+		ks[k] = true
+	}
+	return ks, c.Call.Args[1], true
 }
 
 // refineAt: abstract value of v on entry to block at, starting from av0 where
@@ -534,7 +594,7 @@ func (e *exh) refineAt(av0 *AV, v ssa.Value, at *ssa.BasicBlock, ctx *Ctx) *AV {
 		for si, s := range b.Succs {
 			out := cur
 			if isIf && len(b.Succs) == 2 && b.Succs[0] != b.Succs[1] && e.condMentions(iff.Cond, v) {
-				out = e.refine(cur, v, []Fact{{iff.Cond, si == 0}}, ctx, b)
+				out = e.refine(cur, v, appendFact(nil, Fact{iff.Cond, si == 0}, 0), ctx, b)
 			}
 			if out.empty() {
 				continue
@@ -1196,6 +1256,34 @@ func (e *exh) refine(av *AV, v ssa.Value, fs []Fact, ctx *Ctx, at *ssa.BasicBloc
 	}
 	for _, f := range fs {
 		switch c := f.Cond.(type) {
+		case *ssa.Phi:
+			// a true `a || b || …` (a false `a && b && …`): one of the operands
+			// holds (fails): the union of the refinements by each of them
+			ops, isOr, ok := shortCircuit(c, 0)
+			if !ok || isOr != f.Truth || len(ops) > 16 {
+				continue
+			}
+			mentions := false
+			for _, o := range ops {
+				if e.condMentions(o, v) {
+					mentions = true
+				}
+			}
+			if !mentions {
+				continue
+			}
+			var u *AV
+			for _, o := range ops {
+				r := e.refine(out.clone(), v, appendFact(nil, Fact{o, f.Truth}, 0), ctx, at)
+				if u == nil {
+					u = r.clone()
+				} else {
+					u.join(r)
+				}
+			}
+			if u != nil {
+				out, cloned = u, true
+			}
 		case *ssa.Extract:
 			ta, ok := c.Tuple.(*ssa.TypeAssert)
 			if !ok || c.Index != 1 || !sameValue(ta.X, v) {
@@ -1211,6 +1299,35 @@ func (e *exh) refine(av *AV, v ssa.Value, fs []Fact, ctx *Ctx, at *ssa.BasicBloc
 			r := e.filterAssert(out, ta.AssertedType, f.Truth, out.kind)
 			if r.kind == out.kind || out.kind == "shapes" || out.kind == "types" {
 				out, cloned = r, true
+			}
+		case *ssa.Call:
+			ks, subj, ok := containsConsts(c)
+			if !ok {
+				continue
+			}
+			switch {
+			case sameValue(subj, v) && out.kind == "ints" && !out.Top:
+				m := mut()
+				for x := range m.Ints {
+					if ks[x] != f.Truth {
+						delete(m.Ints, x)
+					}
+				}
+			case out.kind == "shapes" && !out.Top:
+				call, isCall := subj.(*ssa.Call)
+				if !isCall || call.Call.IsInvoke() || len(call.Call.Args) != 1 || !e.sameNode(call.Call.Args[0], v) {
+					continue
+				}
+				sc := call.Call.StaticCallee()
+				if fld, ok := e.getterOf[sc]; sc == nil || !ok || e.p.enumOf(fld.Type()) == nil {
+					continue
+				}
+				m := mut()
+				for key, s := range m.Shapes {
+					if !s.Nil && ks[s.Enum] != f.Truth {
+						delete(m.Shapes, key)
+					}
+				}
 			}
 		case *ssa.BinOp:
 			if c.Op != token.EQL && c.Op != token.NEQ {
@@ -1435,7 +1552,7 @@ func (e *exh) edgeOK(p *ssa.BasicBlock, si int, ctx *Ctx) bool {
 			continue
 		}
 		av := e.evalAt(subj, ctx, p)
-		av = e.refine(av, subj, []Fact{f}, ctx, p)
+		av = e.refine(av, subj, appendFact(nil, f, 0), ctx, p)
 		if av.empty() {
 			return false
 		}
@@ -1474,6 +1591,26 @@ func factSubjects(f Fact) []ssa.Value {
 			}
 		}
 		return out
+	case *ssa.Phi:
+		if ops, _, ok := shortCircuit(c, 0); ok {
+			var out []ssa.Value
+			for _, o := range ops {
+				out = append(out, factSubjects(Fact{o, f.Truth})...)
+			}
+			return out
+		}
+	case *ssa.Call:
+		if _, subj, ok := containsConsts(c); ok {
+			out := []ssa.Value{subj}
+			if call, ok := subj.(*ssa.Call); ok && !call.Call.IsInvoke() && len(call.Call.Args) == 1 {
+				out = append(out, call.Call.Args[0])
+			}
+			return out
+		}
+	case *ssa.UnOp:
+		if c.Op == token.NOT {
+			return factSubjects(Fact{c.X, !f.Truth})
+		}
 	}
 	return nil
 }
